@@ -427,6 +427,10 @@ def search(rng, tier, broken):
         if f:
             if is_known(f): known_seen[f['kind']] = known_seen.get(f['kind'], 0) + 1
             else: return {'tried': tried, 'failing': f, 'known_kinds_seen': known_seen}
+    for s in arch.tag_block_sessions(31):                  # the tag-collision table, restated by check_history's tag rules
+        ops = s.ops; s.close(); tried += 1
+        f = run(31, ops)
+        if f: return {'tried': tried, 'failing': f, 'known_kinds_seen': known_seen}
     for st in arch.ROW_STATES:
         for op in arch.ROW_OPS:
             s, _ = arch.gen_row(31, st, op); ops = s.ops; s.close(); tried += 1
